@@ -10,7 +10,7 @@ VERIF = os.path.dirname(os.path.dirname(os.path.abspath(__file__)))
 EVID = os.path.join(VERIF, 'evidence')
 REPLAYS = os.path.join(VERIF, 'replays')
 
-OVERFLOW_MSGS = ('possible arithmetic underflow/overflow',)
+OVERFLOW_MSGS = ('possible arithmetic underflow/overflow', 'possible division by zero', 'possible bit shift underflow/overflow')
 
 
 def _diag_key(d, mode):
@@ -86,6 +86,9 @@ def conclude(pid, spec, results, tier, seed, wall, kani=()):
                 if d.message.startswith('recommendation not met'):
                     continue
                 key = _diag_key(d, r.mode)
+                if pid == 'C20' and key['kind'] != 'overflow' and 'explicit_panic' not in (d.callee_clause or '') \
+                        and 'explicit_panic' not in (d.expr or ''):
+                    continue   # clauses of the other properties are decided by their own checks
                 if key['kind'] == 'overflow':
                     # implicit panic site: a C20 obligation, not one of the other properties
                     c20_sites.append((r.unit, key))
